@@ -152,11 +152,27 @@ inductive Status
   | crash
 deriving DecidableEq, Repr
 
-/-- verdict of `check_modified` on one existing dependency given the saved state -/
+/-- `previous_set is not None and dep not in previous_set`: the dependency is not in the saved `deps:` list (a stale
+    per-file key of an earlier definition may still exist); `check_modified` is then not even called -/
+def notSaved (r : Rcd) (p : Path) : Bool :=
+  match r.deps with
+  | none => false
+  | some prev => !decide (p ∈ prev)
+
+/-- verdict on one existing dependency given the saved state: `state is None or (previous_set is not None and dep not
+    in previous_set) or check_modified(...)` -/
 def depVerdict (c : Checker) (r : Rcd) (cur : FMeta) (p : Path) : Mod :=
   match r.fstate p with
   | none => .modified
-  | some st => checkModified c st cur
+  | some st => if notSaved r p then .modified else checkModified c st cur
+
+/-- the loop of the tree before the fix commit faa294a (`state is None or check_modified(...)`): a stale per-file key
+    of a dependency that is not in the saved `deps:` list was compared (kept for pinned counterexamples only) -/
+def depIsPinned (v : Mod) (c : Checker) (r : Rcd) (fs : FS) (p : Path) : Bool :=
+  match fs p, r.fstate p with
+  | none, _ => false
+  | some _, none => v == .modified
+  | some cur, some st => checkModified c st cur == v
 
 def depMissing (fs : FS) (p : Path) : Bool := (fs p).isNone
 
@@ -186,6 +202,17 @@ def depsChanged (fixed : Bool) (r : Rcd) (deps : List Path) : Bool :=
   | none => false
   | some prev => if fixed then !sameSet prev deps else (!prev.isEmpty && !sameSet prev deps)
 
+/-- the pinned tree's `previous_set` is `None` also when the saved `deps:` is empty -/
+def notSavedPinned (r : Rcd) (p : Path) : Bool :=
+  match r.deps with
+  | none => false
+  | some prev => !prev.isEmpty && !decide (p ∈ prev)
+
+def depSamePinned (c : Checker) (r : Rcd) (fs : FS) (p : Path) : Bool :=
+  match fs p, r.fstate p with
+  | some cur, some st => !notSavedPinned r p && checkModified c st cur == .same
+  | _, _ => false
+
 /-- the exits of `get_status` that come before the record is consulted for file state -/
 def earlyRun (d : TaskDef) (vals : Values) (resOf : Name → Option Res) (fs : FS) : Bool :=
   utdFalse vals resOf d.uptodate
@@ -202,6 +229,12 @@ def statusOf (fixed : Bool) (c : Checker) (d : TaskDef) (r : Rcd) (fs : FS) (res
     | .crash => .crash
     | .run => .run
     | .upToDate => if depsChanged fixed r d.deps then .run else .upToDate
+
+/-- "`get_status` answers up-to-date" with `previous_set = set(previous) if previous else None` (the tree before the
+    fix commit 18776b0; kept only for the counterexample `C03_pinned_counterexample`) -/
+def pinnedUpToDate (c : Checker) (d : TaskDef) (r : Rcd) (fs : FS) (resOf : Name → Option Res) : Bool :=
+  !earlyRun d r.getValues resOf fs && !checkerChanged c r && !depsChanged false r d.deps
+    && d.deps.all (depSamePinned c r fs)
 
 /-- `get_status` removes the record when the checker changed (and no earlier exit was taken) -/
 def removesRecord (c : Checker) (d : TaskDef) (r : Rcd) (fs : FS) (resOf : Name → Option Res) : Bool :=
@@ -359,9 +392,11 @@ def peek (s : St) (t : Name) : St :=
 def St.statusLog (s : St) (t : Name) : Status :=
   Status.statusLog s.checker (s.defs t) (s.rcd t) s.fs s.resOf
 
-/-- `doit info t`: `get_status(get_log=True)`; the record is dropped whenever the checker changed -/
+/-- `doit info t`: an ignored task is shown as such and `get_status` is not called; otherwise
+    `get_status(get_log=True)`: the record is dropped whenever the checker changed -/
 def info (s : St) (t : Name) : St :=
-  if s.statusLog t == .crash then { s with crashed := true }
+  if (s.rcd t).ign then s
+  else if s.statusLog t == .crash then { s with crashed := true }
   else if checkerChanged s.checker (s.rcd t) then erase s t else s
 
 /-- `Runner.select_task` + `execute_task` + `process_task_result` for one task -/
@@ -375,7 +410,9 @@ def runTask (fixed : Bool) (s : St) (t : Name) (ok always : Bool) (writes : List
     | .upToDate => if always then finish (applyWrites s writes) t ok res else s
     | .run => finish (applyWrites (peek s t) writes) t ok res
 
-/-- `doit reset-dep t` for one task -/
+/-- `doit reset-dep t` for one task as it was before the fix commit 017f29e: when `get_status` drops the whole record
+    on a checker change the ignore mark goes with it (kept because C13's pinned counterexample is stated over it;
+    the command of the present tree is `resetDepKeep`) -/
 def resetDep (fixed : Bool) (s : St) (t : Name) : St :=
   if (s.defs t).deps.any (depMissing s.fs) then s
   else
@@ -388,6 +425,15 @@ def resetDep (fixed : Bool) (s : St) (t : Name) : St :=
       | .ok r => commit s t r ⟨(s.defs t).deps, s.fs, (s.rcd t).getValues, r.result, s.checker⟩
       | .missing => s
       | .crash => { s with crashed := true }
+
+/-- `Dependency.ignore` -/
+def markIgn (s : St) (t : Name) : St :=
+  { s with rcd := fun k => if k = t then { s.rcd t with ign := true } else s.rcd k }
+
+/-- `doit reset-dep t` of the present tree: `ignored = status_is_ignore(task)` is read first and, if set, the mark is
+    put back at the end (`if ignored: self.dep_manager.ignore(task)`) -/
+def resetDepKeep (fixed : Bool) (s : St) (t : Name) : St :=
+  if (s.rcd t).ign then markIgn (resetDep fixed s t) t else resetDep fixed s t
 
 inductive Op
   | edit (p : Path) (size cid : Nat)
@@ -423,7 +469,7 @@ def step (fixed : Bool) (s : St) (op : Op) : St :=
     | .unmet t => erase s t
     | .forget t => erase s t
     | .ignore t => { s with rcd := fun k => if k = t then { s.rcd t with ign := true } else s.rcd k }
-    | .resetDep t => resetDep fixed s t
+    | .resetDep t => resetDepKeep fixed s t
     | .peek t => if s.status fixed t == .crash then { s with crashed := true } else peek s t
     | .info t => info s t
     | .switchChecker c => { s with checker := c }
